@@ -40,8 +40,64 @@ import (
 
 const prop = "C16"
 
-// findSelfFor: v-once and v-for on the same element emits nothing at all.
-const findSelfFor = "C16-once-and-for-on-same-element"
+// findLoadedString (open): a string rendered on a Template that was loaded from component F and
+// that includes F identifies its own v-once elements with F's name, so they collide with F's.
+// Excluded region, by construction: string-entry steps whose On file is a component that the
+// page body includes (directly or through other components) when both the body and that
+// component contain a v-once element. Every other On (the page file, components the body does
+// not include, components or bodies without marked elements) is still searched.
+const findLoadedString = "C16-string-on-loaded-template-borrows-its-name"
+
+func countOnce(items []Item) int {
+	n := 0
+	for _, it := range items {
+		if it.K == "once" {
+			n++
+		}
+		n += countOnce(it.Kids)
+	}
+	return n
+}
+
+// includes reports whether comp is reachable from items through include items.
+func includes(c *Case, items []Item, comp string, depth int) bool {
+	if depth > len(compOrder)+1 {
+		return false
+	}
+	for _, it := range items {
+		if it.K == "inc" && (it.Comp == comp || includes(c, c.Comps[it.Comp], comp, depth+1)) {
+			return true
+		}
+		if includes(c, it.Kids, comp, depth) {
+			return true
+		}
+	}
+	return false
+}
+
+// inLoadedStringRegion says whether step s lies in the region of findLoadedString.
+func inLoadedStringRegion(c *Case, s Step) bool {
+	if s.On == "" || !strings.HasPrefix(s.On, "components/") {
+		return false
+	}
+	comp := strings.TrimSuffix(strings.TrimPrefix(s.On, "components/"), ".vuego")
+	body := c.Pages[s.P].Items
+	return countOnce(body) > 0 && countOnce(c.Comps[comp]) > 0 && includes(c, body, comp, 0)
+}
+
+// avoidKnown rewrites the steps that lie in the region of an open finding (On is dropped) and
+// counts them.
+func avoidKnown(rec *ev.Rec, c *Case, openLoaded bool) {
+	if !openLoaded {
+		return
+	}
+	for i, s := range c.Steps {
+		if inLoadedStringRegion(c, s) {
+			c.Steps[i].On = ""
+			rec.Excluded(findLoadedString)
+		}
+	}
+}
 
 // ---------------------------------------------------------------------------------------------
 // description
@@ -82,10 +138,13 @@ type Layout struct {
 	After  []Item `json:"after,omitempty"`
 }
 
-// Step renders one page through one entry point.
+// Step renders one page through one entry point. For the string entries On optionally names a
+// file of the site that the template object was Load()ed from before the string is rendered on it
+// (RenderString is a method of every Template value, loaded or not).
 type Step struct {
 	P     int    `json:"p"`
 	Entry string `json:"entry"`
+	On    string `json:"on,omitempty"`
 }
 
 // Case is a site and a history on one engine.
@@ -100,6 +159,7 @@ type Case struct {
 var entries = []string{"load", "file", "vue", "frag", "string", "byte", "reader"}
 
 func layoutAware(e string) bool { return e == "load" || e == "file" }
+func stringy(e string) bool     { return e == "string" || e == "byte" || e == "reader" }
 
 // layoutOrder bounds chains by construction: Next must come later in this list.
 var layoutOrder = []string{"l1", "l2", "l3", "base"}
@@ -113,6 +173,9 @@ func indexOf(l []string, s string) int {
 	}
 	return -1
 }
+
+// loop lengths drawn for generated loops (empty loops are a class of their own, but rarer)
+var loopLens = []int{0, 1, 2, 2, 3, 3}
 
 var leafTags = []string{"style", "b", "script", "span", "i"}
 var boxTags = []string{"div", "section"}
@@ -345,6 +408,11 @@ func validate(c Case) error {
 		if s.P < 0 || s.P >= len(c.Pages) || indexOf(entries, s.Entry) < 0 {
 			return fmt.Errorf("bad step %+v", s)
 		}
+		if s.On != "" {
+			if _, ok := files(c)[s.On]; !ok || !stringy(s.Entry) {
+				return fmt.Errorf("bad step %+v", s)
+			}
+		}
 	}
 	return nil
 }
@@ -486,6 +554,13 @@ func renderStep(tpl vuego.Template, vue *vuego.Vue, c *Case, s Step) (string, er
 	ctx := context.Background()
 	name := pageName(s.P)
 	var err error
+	// receiver of the string entries: a fresh copy of the engine's template, or one loaded from a file
+	recv := func() vuego.Template {
+		if s.On != "" {
+			return tpl.Load(s.On)
+		}
+		return tpl.New()
+	}
 	switch s.Entry {
 	case "load":
 		err = tpl.Load(name).Fill(data()).Render(ctx, &buf)
@@ -496,11 +571,11 @@ func renderStep(tpl vuego.Template, vue *vuego.Vue, c *Case, s Step) (string, er
 	case "frag":
 		err = vue.RenderFragment(&buf, name, data())
 	case "string":
-		err = tpl.New().Fill(data()).RenderString(ctx, &buf, pageBody(s.P, c.Pages[s.P]))
+		err = recv().Fill(data()).RenderString(ctx, &buf, pageBody(s.P, c.Pages[s.P]))
 	case "byte":
-		err = tpl.New().Fill(data()).RenderByte(ctx, &buf, []byte(pageBody(s.P, c.Pages[s.P])))
+		err = recv().Fill(data()).RenderByte(ctx, &buf, []byte(pageBody(s.P, c.Pages[s.P])))
 	case "reader":
-		err = tpl.New().Fill(data()).RenderReader(ctx, &buf, strings.NewReader(pageBody(s.P, c.Pages[s.P])))
+		err = recv().Fill(data()).RenderReader(ctx, &buf, strings.NewReader(pageBody(s.P, c.Pages[s.P])))
 	default:
 		err = fmt.Errorf("unknown entry %q", s.Entry)
 	}
@@ -560,6 +635,9 @@ func check(c Case) error {
 		exp := expect(&c, s)
 		out, err := renderStep(tpl, vue, &c, s)
 		at := fmt.Sprintf("step %d (page %s via %s)", i, pageName(s.P), s.Entry)
+		if s.On != "" {
+			at = fmt.Sprintf("step %d (body of page %s via %s on a template loaded from %s)", i, pageName(s.P), s.Entry, s.On)
+		}
 		if err != nil {
 			return fmt.Errorf("%s: render failed: %v", at, err)
 		}
@@ -710,6 +788,9 @@ func classify(c Case) (bool, []string) {
 		if seenStep[s] {
 			repeat = true
 		}
+		if s.On != "" {
+			set["string-entry-on-loaded-template"] = true
+		}
 		seenStep[s] = true
 		if i > 0 && c.Steps[i-1].P != s.P {
 			set["interleaved-programs"] = true
@@ -778,11 +859,9 @@ func classify(c Case) (bool, []string) {
 // bounded exhaustive enumeration: a fixed universe site with slots for marked elements
 
 type uni struct {
-	fill map[string]bool
-	next int
+	fill  map[string]bool
+	next  int
 	kinds int
-	open  bool // self-for finding open: leave that slot unfilled
-	excl  int
 }
 
 func (u *uni) id() int { u.next++; return u.next }
@@ -819,8 +898,8 @@ func universeSlots(p uparams) []string {
 	return s
 }
 
-func universe(fill []string, p uparams, open bool) (Case, int) {
-	u := &uni{fill: map[string]bool{}, open: open}
+func universe(fill []string, p uparams) Case {
+	u := &uni{fill: map[string]bool{}}
 	for _, f := range fill {
 		u.fill[f] = true
 	}
@@ -835,12 +914,8 @@ func universe(fill []string, p uparams, open bool) (Case, int) {
 	}
 	P = append(P, inc("B"))
 	if u.fill["s2"] {
-		if open && p.nA >= 1 {
-			u.excl++
-		} else {
-			u.kinds++
-			P = append(P, Item{K: "once", M: u.id(), Tag: leafTags[u.kinds%len(leafTags)], Self: true, N: p.nA})
-		}
+		u.kinds++
+		P = append(P, Item{K: "once", M: u.id(), Tag: leafTags[u.kinds%len(leafTags)], Self: true, N: p.nA})
 	}
 	P = append(P, Item{K: "for", M: u.id(), N: 3, Kids: []Item{{K: "if", M: u.id(), Eq: 2, Kids: u.slot("s3", all)}}})
 	P = append(P, Item{K: "div", M: u.id(), Kids: u.slot("s4", all)})
@@ -885,14 +960,18 @@ func universe(fill []string, p uparams, open bool) (Case, int) {
 	case "base":
 		c.Layouts["base"] = mkDoc()
 	}
-	return c, u.excl
+	return c
 }
 
 // historyFor renders page 0 twice through e with page 1 (through another entry) in between.
 func historyFor(k int) []Step {
 	e := entries[k%len(entries)]
 	o := entries[(k+3)%len(entries)]
-	return []Step{{0, e}, {0, e}, {1, o}, {0, e}}
+	last := Step{P: 0, Entry: e}
+	if stringy(e) {
+		last.On = "components/A.vuego" // the string is rendered on a template object loaded from a file it includes
+	}
+	return []Step{{P: 0, Entry: e}, {P: 0, Entry: e}, {P: 1, Entry: o}, last}
 }
 
 // subsets of size 1..max of names, in a fixed order.
@@ -922,8 +1001,6 @@ type gen struct {
 	next   int
 	budget int // marked elements still to place
 	comps  []string
-	open   bool
-	rec    *ev.Rec
 }
 
 func (g *gen) id() int { g.next++; return g.next }
@@ -935,8 +1012,7 @@ func (g *gen) items(label string, comp, depth int, inLoop bool, max int) []Item 
 	for i := 0; i < n; i++ {
 		l := fmt.Sprintf("%s.%d", label, i)
 		var allowed []string
-		for j, name := range g.comps {
-			_ = name
+		for j := range g.comps {
 			if j > comp {
 				allowed = append(allowed, g.comps[j])
 			}
@@ -963,11 +1039,7 @@ func (g *gen) items(label string, comp, depth int, inLoop bool, max int) []Item 
 			case shape == 0: // v-for on the marked element itself
 				it.Tag = rapid.SampledFrom(leafTags).Draw(g.t, l+"tag")
 				it.Self = true
-				it.N = rapid.IntRange(0, 3).Draw(g.t, l+"n")
-				if g.open && it.N >= 1 {
-					g.rec.Excluded(findSelfFor)
-					it.Self, it.N = false, 0
-				}
+				it.N = rapid.SampledFrom(loopLens).Draw(g.t, l+"n")
 			case shape <= 2 && depth < 3: // a marked container
 				it.Tag = rapid.SampledFrom(boxTags).Draw(g.t, l+"tag")
 				it.Kids = g.items(l, comp, depth+1, inLoop, 2)
@@ -976,7 +1048,7 @@ func (g *gen) items(label string, comp, depth int, inLoop bool, max int) []Item 
 			}
 			out = append(out, it)
 		case "for":
-			it := Item{K: "for", M: g.id(), N: rapid.IntRange(0, 3).Draw(g.t, l+"n")}
+			it := Item{K: "for", M: g.id(), N: rapid.SampledFrom(loopLens).Draw(g.t, l+"n")}
 			it.Kids = g.items(l, comp, depth+1, true, 3)
 			out = append(out, it)
 		case "div":
@@ -999,9 +1071,9 @@ func (g *gen) items(label string, comp, depth int, inLoop bool, max int) []Item 
 	return out
 }
 
-func genCase(rec *ev.Rec, open bool) func(t *rapid.T) Case {
+func genCase(rec *ev.Rec, openLoaded bool) func(t *rapid.T) Case {
 	return func(t *rapid.T) Case {
-		g := &gen{t: t, open: open, rec: rec}
+		g := &gen{t: t}
 		g.budget = rapid.IntRange(1, run.Pick(4, 6)).Draw(t, "once")
 		nComps := rapid.IntRange(0, 4).Draw(t, "comps")
 		g.comps = compOrder[:nComps]
@@ -1049,13 +1121,51 @@ func genCase(rec *ev.Rec, open bool) func(t *rapid.T) Case {
 			// the site always has a marked element: spend what is left at the end of page 0
 			c.Pages[0].Items = append(c.Pages[0].Items, Item{K: "once", M: g.id(), Tag: rapid.SampledFrom(leafTags).Draw(t, "lasttag")})
 		}
-		nSteps := rapid.IntRange(1, 6).Draw(t, "steps")
-		for i := 0; i < nSteps; i++ {
-			c.Steps = append(c.Steps, Step{
-				P:     rapid.IntRange(0, nPages-1).Draw(t, "p"),
-				Entry: rapid.SampledFrom(entries).Draw(t, "entry"),
-			})
+		// every component is included from somewhere (otherwise its marked elements are dead weight)
+		used := map[string]bool{}
+		var mark func(items []Item)
+		mark = func(items []Item) {
+			for _, it := range items {
+				if it.K == "inc" {
+					used[it.Comp] = true
+				}
+				mark(it.Kids)
+			}
 		}
+		for _, p := range c.Pages {
+			mark(p.Items)
+		}
+		for _, n := range layoutOrder {
+			l := c.Layouts[n]
+			mark(l.Before)
+			mark(l.After)
+		}
+		for _, n := range g.comps {
+			mark(c.Comps[n])
+		}
+		for _, n := range g.comps {
+			if !used[n] {
+				k := rapid.IntRange(0, nPages-1).Draw(t, "orphan"+n)
+				c.Pages[k].Items = append(c.Pages[k].Items, Item{K: "inc", Comp: n})
+			}
+		}
+		// every page is rendered at least once, then arbitrary further steps
+		nSteps := rapid.IntRange(nPages, 6).Draw(t, "steps")
+		for i := 0; i < nSteps; i++ {
+			s := Step{P: i, Entry: rapid.SampledFrom(entries).Draw(t, "entry")}
+			if i >= nPages {
+				s.P = rapid.IntRange(0, nPages-1).Draw(t, "p")
+			}
+			if stringy(s.Entry) && rapid.IntRange(0, 2).Draw(t, "on?") == 0 {
+				on := []string{pageName(0), pageName(nPages - 1)}
+				for _, n := range g.comps {
+					on = append(on, "components/"+n+".vuego")
+				}
+				s.On = rapid.SampledFrom(on).Draw(t, "on")
+			}
+			c.Steps = append(c.Steps, s)
+		}
+		avoidKnown(rec, &c, openLoaded)
 		return c
 	}
 }
@@ -1070,8 +1180,8 @@ func TestProp(t *testing.T) {
 	rec := ev.New(prop)
 	defer run.Finish(t, rec)
 	run.Witnesses(rec, prop, replay)
-	open := kf.Load().Open(findSelfFor)
 
+	openLoaded := kf.Load().Open(findLoadedString)
 	shard, shards := run.Shard()
 	// exhaustive: every choice of 1..k slots of the universe site x parameter sets x entry histories
 	params := []uparams{
@@ -1096,11 +1206,9 @@ enum:
 				if n%shards != shard {
 					continue
 				}
-				c, excl := universe(fill, p, open)
-				for i := 0; i < excl; i++ {
-					rec.Excluded(findSelfFor)
-				}
+				c := universe(fill, p)
 				c.Steps = historyFor(k)
+				avoidKnown(rec, &c, openLoaded)
 				nt, cls := classify(c)
 				if !run.Each(rec, "enum", c, nt, cls, check) {
 					ok = false
@@ -1113,7 +1221,7 @@ enum:
 		rec.Exhaustive(fmt.Sprintf("universe site: every choice of 1..%d of its slots x %d parameter sets x %d entry histories (%d cases)", maxFill, len(params), len(entries), n))
 	}
 
-	run.Rapid(t, rec, "random", genCase(rec, open), classify, check)
+	run.Rapid(t, rec, "random", genCase(rec, openLoaded), classify, check)
 }
 
 func TestReplay(t *testing.T) { run.ReplayMain(t, prop, replay) }
